@@ -1211,13 +1211,11 @@ impl FseDecoder {
             }
         }
         
-        // Build decompression table
-        let config = FseConfig {
-            table_log,
-            ..self.config.clone()
-        };
-        let table = FseTable::new(&frequencies, &config)?;
-        let table_size = 1usize << table_log;
+        // Build decompression table.  FseTable::new always builds 2^12 slots whatever the configured
+        // table_log (the encoder did the same), so the decoder's own configuration is the one to validate:
+        // copying the blob's table_log into it made presets with max_table_size < 4096 (realtime) refuse
+        // every blob their own encoder produced.
+        let table = FseTable::new(&frequencies, &self.config)?;
         
         // Read initial state from the END of the data (rANS reads backward)
         if data.len() < pos + 8 {
